@@ -373,3 +373,130 @@ Proof.
   unfold DeriveMask1D_all_false, Mask1D_all_false, Mask1D_new. cbn [fst snd length]. rewrite unmasked1_full1_false, seqZ_length.
   vm_compute. lia.
 Qed.
+
+(* ------------------------------------------------------------------ every point of the extent has its pixel; outside the extent *)
+(* one axis: the continuous pixel position of a point of [lo, hi) lies in [0, n); its integer part j is a valid index and the point
+   lies in the half-open interval of pixel j *)
+Lemma axis_position n s o x : 0 < s -> @lo_spec ROps n s o <= x < @hi_spec ROps n s o ->
+  let pos := (x - o) / s + IZR (n - 1) / 2 + 1 / 2 in
+  0 <= pos < IZR n /\ x = o + (pos - IZR (n - 1) / 2 - 1 / 2) * s.
+Proof.
+  intros Hs [H1 H2] pos. unfold lo_spec, hi_spec in *. rsimp.
+  assert (B : - (IZR n / 2) <= (x - o) / s < IZR n / 2) by (apply div_bounds; [assumption | nra]).
+  unfold pos. rewrite minus_IZR. split; [lra | field; lra].
+Qed.
+Lemma floor_index pos n : 0 <= pos < IZR n -> (0 <= Rfloor pos < n)%Z /\ IZR (Rfloor pos) <= pos < IZR (Rfloor pos) + 1.
+Proof.
+  intros [H0 Hn]. pose proof (Rfloor_spec pos) as [F1 F2]. split; [|lra]. split.
+  - assert (A : IZR (-1) < IZR (Rfloor pos)) by (cbn; lra). apply lt_IZR in A. lia.
+  - apply lt_IZR. lra.
+Qed.
+(* 1-D: every x in [x_min, x_max) converts to a valid index j, and x lies in the half-open interval of pixel j *)
+Lemma every_point_has_its_pixel_1d n s o x : 0 < s -> @lo_spec ROps n s o <= x < @hi_spec ROps n s o ->
+  let j := @pixel_coordinates_1d_from ROps x n s o in
+  (0 <= j < n)%Z /\ @cx_spec ROps n s o (IZR j) - s / 2 <= x < @cx_spec ROps n s o (IZR j) + s / 2.
+Proof.
+  intros Hs Hx. destruct (axis_position n s o x Hs Hx) as [Hp Ex]. cbv zeta in Hp, Ex.
+  set (pos := (x - o) / s + IZR (n - 1) / 2 + 1 / 2) in *.
+  destruct (floor_index pos n Hp) as [Hj Hf].
+  assert (E : @pixel_coordinates_1d_from ROps x n s o = Rfloor pos).
+  { unfold pixel_coordinates_1d_from, central_pixel_coordinates_1d_from. rsimp. fold pos. apply trunc_R_nonneg. lra. }
+  cbv zeta. rewrite E. split; [exact Hj|]. unfold cx_spec. rsimp. clear E. clearbody pos. nra.
+Qed.
+(* 2-D: every (y, x) with y_min < y <= y_max, x_min <= x < x_max converts to a pixel of the array whose half-open square contains it *)
+Lemma every_point_has_its_pixel H W sy sx oy ox y x : 0 < sy -> 0 < sx ->
+  @lo_spec ROps H sy oy < y <= @hi_spec ROps H sy oy -> @lo_spec ROps W sx ox <= x < @hi_spec ROps W sx ox ->
+  let p := @pixel_coordinates_2d_from ROps (y, x) (H, W) (sy, sx) (oy, ox) in
+  in_array (H, W) p /\ in_pixel (H, W) (sy, sx) (oy, ox) p (y, x).
+Proof.
+  intros Hsy Hsx Hy Hx.
+  (* the row axis is the column axis mirrored about the origin *)
+  assert (Hy' : @lo_spec ROps H sy oy <= 2 * oy - y < @hi_spec ROps H sy oy) by (unfold lo_spec, hi_spec in *; rsimp; lra).
+  destruct (axis_position H sy oy (2 * oy - y) Hsy Hy') as [Hpy Ey]. destruct (axis_position W sx ox x Hsx Hx) as [Hpx Ex].
+  cbv zeta in Hpy, Ey, Hpx, Ex.
+  set (py := (2 * oy - y - oy) / sy + IZR (H - 1) / 2 + 1 / 2) in *. set (px := (x - ox) / sx + IZR (W - 1) / 2 + 1 / 2) in *.
+  destruct (floor_index py H Hpy) as [Hi Hfy]. destruct (floor_index px W Hpx) as [Hj Hfx].
+  assert (E : @pixel_coordinates_2d_from ROps (y, x) (H, W) (sy, sx) (oy, ox) = (Rfloor py, Rfloor px)).
+  { unfold pixel_coordinates_2d_from, central_pixel_coordinates_2d_from. rsimp. fold px.
+    replace ((- y + oy) / sy + IZR (H - 1) / 2 + 1 / 2) with py by (unfold py; field; lra).
+    f_equal; apply trunc_R_nonneg; lra. }
+  cbv zeta. rewrite E. split; [split; assumption|].
+  unfold in_pixel, cy_spec, cx_spec. cbn [fst snd]. rsimp. clear E. clearbody py px. split; nra.
+Qed.
+(* the half-open squares of distinct pixels are disjoint: the pixel of a point is unique *)
+Lemma in_pixel_unique H W sy sx oy ox p q c : 0 < sy -> 0 < sx ->
+  in_pixel (H, W) (sy, sx) (oy, ox) p c -> in_pixel (H, W) (sy, sx) (oy, ox) q c -> p = q.
+Proof.
+  intros Hsy Hsx [Py Px] [Qy Qx]. destruct p as [i j], q as [i' j']. unfold cy_spec, cx_spec in *. cbn [fst snd] in *. rsimp.
+  f_equal; apply eq_IZR.
+  - assert (A : -1 < IZR i - IZR i' < 1) by nra. assert (B : (-1 < i - i' < 1)%Z) by (split; apply lt_IZR; rewrite minus_IZR; cbn; lra).
+    f_equal. lia.
+  - assert (A : -1 < IZR j - IZR j' < 1) by nra. assert (B : (-1 < j - j' < 1)%Z) by (split; apply lt_IZR; rewrite minus_IZR; cbn; lra).
+    f_equal. lia.
+Qed.
+(* int() truncates toward zero: a point LESS than one pixel outside the low edge is still attributed to index 0 (a valid index although
+   the point is outside the extent); from one pixel outside on the index is negative; at or beyond the high edge it is >= n *)
+Lemma index_outside_extent_1d n s o x : 0 < s ->
+  (@lo_spec ROps n s o - s < x < @lo_spec ROps n s o -> @pixel_coordinates_1d_from ROps x n s o = 0%Z) /\
+  (x <= @lo_spec ROps n s o - s -> (@pixel_coordinates_1d_from ROps x n s o <= -1)%Z) /\
+  (@hi_spec ROps n s o <= x -> (n <= @pixel_coordinates_1d_from ROps x n s o)%Z).
+Proof.
+  intros Hs. unfold lo_spec, hi_spec, pixel_coordinates_1d_from, central_pixel_coordinates_1d_from. rsimp. rewrite minus_IZR.
+  set (pos := (x - o) / s + (IZR n - 1) / 2 + 1 / 2).
+  assert (Ex : x = o + (pos - (IZR n - 1) / 2 - 1 / 2) * s) by (unfold pos; field; lra).
+  repeat split.
+  - intros [H1 H2]. assert (Hp : -1 < pos < 0) by (split; nra).
+    rewrite trunc_R_neg by lra. assert (E : Rfloor (- pos) = 0%Z) by (apply Rfloor_unique; cbn; lra). rewrite E. reflexivity.
+  - intros H1. assert (Hp : pos <= -1) by nra.
+    rewrite trunc_R_neg by lra. pose proof (Rfloor_spec (- pos)) as [F1 F2].
+    assert (A : IZR 0 < IZR (Rfloor (- pos))) by (cbn; lra). apply lt_IZR in A. lia.
+  - intros H1. assert (Hp : IZR n <= pos) by nra.
+    destruct (Rlt_dec pos 0) as [Hneg|Hpos].
+    + rewrite trunc_R_neg by lra. pose proof (Rfloor_spec (- pos)) as [F1 F2].
+      assert (A : IZR n < IZR (- Rfloor (- pos)) + 1) by (rewrite opp_IZR; lra). rewrite <- plus_IZR in A. apply lt_IZR in A. lia.
+    + rewrite trunc_R_nonneg by lra. pose proof (Rfloor_spec pos) as [F1 F2].
+      assert (A : IZR n < IZR (Rfloor pos) + 1) by lra. rewrite <- plus_IZR in A. apply lt_IZR in A. lia.
+Qed.
+(* orientation: y decreases with the row index, x increases with the column index *)
+Lemma orientation H W sy sx oy ox i i' j j' : 0 < sy -> 0 < sx -> (i < i')%Z -> (j < j')%Z ->
+  fst (@centre_spec ROps (H, W) (sy, sx) (oy, ox) (i', j)) < fst (@centre_spec ROps (H, W) (sy, sx) (oy, ox) (i, j)) /\
+  snd (@centre_spec ROps (H, W) (sy, sx) (oy, ox) (i, j)) < snd (@centre_spec ROps (H, W) (sy, sx) (oy, ox) (i, j')).
+Proof.
+  intros Hsy Hsx Hi Hj. apply IZR_lt in Hi, Hj. unfold centre_spec, cy_spec, cx_spec. cbn [fst snd]. rsimp. split; nra.
+Qed.
+Lemma every_point_of_extent H W sy sx oy ox y x : 0 < sy -> 0 < sx ->
+  let '(xmin, xmax, ymin, ymax) := @Geometry2D_extent ROps (H, W) (sy, sx) (oy, ox) in
+  ymin < y <= ymax -> xmin <= x < xmax ->
+  let p := @pixel_coordinates_2d_from ROps (y, x) (H, W) (sy, sx) (oy, ox) in
+  in_array (H, W) p /\ in_pixel (H, W) (sy, sx) (oy, ox) p (y, x) /\
+  @grid_pixel_indexes_2d_slim_from ROps [(y, x)] (H, W) (sy, sx) (oy, ox) = [IZR (fst p * W + snd p)].
+Proof.
+  intros Hsy Hsx. rewrite extent2_eq. unfold extent_spec. cbn [fst snd]. intros Hy Hx.
+  destruct (every_point_has_its_pixel H W sy sx oy ox y x Hsy Hsx Hy Hx) as [Ha Hp]. cbv zeta in Ha, Hp. cbv zeta.
+  split; [exact Ha|]. split; [exact Hp|].
+  destruct (index_of_interior_point H W sy sx oy ox (y, x) _ Hsy Hsx Ha Hp) as [_ [_ E]]. exact E.
+Qed.
+Lemma every_point_of_extent_1d n s o x : 0 < s ->
+  let '(xmin, xmax) := @Geometry1D_extent ROps n s o in
+  xmin <= x < xmax ->
+  let j := @pixel_coordinates_1d_from ROps x n s o in
+  (0 <= j < n)%Z /\ @cx_spec ROps n s o (IZR j) - s / 2 <= x < @cx_spec ROps n s o (IZR j) + s / 2.
+Proof. intros Hs. rewrite extent1_eq. unfold extent1_spec. intros Hx. now apply every_point_has_its_pixel_1d. Qed.
+
+(* the offset used by all five shape predicates is the pixel's centre in the mask's own coordinates (any origin o) minus (o + centre) *)
+Lemma offset_relative_to_origin_plus_centre H W sy sx oy ox cy cx i j :
+  @offset ROps (H, W) (sy, sx) (cy, cx) (i, j) =
+  (fst (@centre_spec ROps (H, W) (sy, sx) (oy, ox) (i, j)) - (oy + cy), snd (@centre_spec ROps (H, W) (sy, sx) (oy, ox) (i, j)) - (ox + cx)).
+Proof. unfold offset, centre_spec, cy_spec, cx_spec. cbn [fst snd]. rsimp. f_equal; lra. Qed.
+(* every pixel centre of the array lies at least half a pixel inside the extent *)
+Lemma centres_half_pixel_inside_extent H W sy sx oy ox i j : 0 < sy -> 0 < sx -> (0 <= i < H)%Z -> (0 <= j < W)%Z ->
+  let '(xmin, xmax, ymin, ymax) := @Geometry2D_extent ROps (H, W) (sy, sx) (oy, ox) in
+  let c := @centre_spec ROps (H, W) (sy, sx) (oy, ox) (i, j) in
+  xmin + sx / 2 <= snd c <= xmax - sx / 2 /\ ymin + sy / 2 <= fst c <= ymax - sy / 2.
+Proof.
+  intros Hsy Hsx [Hi0 Hi1] [Hj0 Hj1]. rewrite extent2_eq. unfold extent_spec, lo_spec, hi_spec, centre_spec, cy_spec, cx_spec. cbn [fst snd]. rsimp.
+  rewrite !minus_IZR. apply IZR_le in Hi0, Hj0.
+  assert (A : IZR i <= IZR H - 1) by (rewrite <- minus_IZR; apply IZR_le; lia).
+  assert (B : IZR j <= IZR W - 1) by (rewrite <- minus_IZR; apply IZR_le; lia).
+  repeat split; nra.
+Qed.
